@@ -178,6 +178,12 @@ impl Writer {
                         self.outstring.push_str(tag);
                         self.outstring.push_str(&item_text);
                         if is_block {
+                            let mut end_offset = end_offset;
+                            if end_offset == 0 && ends_in_line_comment(&item_text) {
+                                // the /end would become part of a line comment. This can happen when
+                                // the items between the comment and the /end were removed
+                                end_offset = 1;
+                            }
                             self.add_whitespace(end_offset);
                             self.outstring.push_str("/end ");
                             self.outstring.push_str(tag);
@@ -274,6 +280,50 @@ impl TaggedItemInfo<'_> {
             TaggedItemInfo::Comment { .. } => None, // no position restriction for comments
         }
     }
+}
+
+// check if the text ends inside of a line comment, i.e. "// ..." without a following line break
+fn ends_in_line_comment(text: &str) -> bool {
+    #[derive(PartialEq)]
+    enum State {
+        Normal,
+        String,
+        BlockComment,
+        LineComment,
+    }
+
+    if !text.contains("//") {
+        return false;
+    }
+    let bytes = text.as_bytes();
+    let mut state = State::Normal;
+    let mut pos = 0;
+    while pos < bytes.len() {
+        let next = bytes.get(pos + 1).copied();
+        match (&state, bytes[pos]) {
+            (State::Normal, b'"') => state = State::String,
+            (State::Normal, b'/') if next == Some(b'*') => {
+                state = State::BlockComment;
+                pos += 1;
+            }
+            (State::Normal, b'/') if next == Some(b'/') => {
+                state = State::LineComment;
+                pos += 1;
+            }
+            // escaped character or doubled quote inside a string
+            (State::String, b'\\') => pos += 1,
+            (State::String, b'"') if next == Some(b'"') => pos += 1,
+            (State::String, b'"') => state = State::Normal,
+            (State::BlockComment, b'*') if next == Some(b'/') => {
+                state = State::Normal;
+                pos += 1;
+            }
+            (State::LineComment, b'\n') => state = State::Normal,
+            _ => {}
+        }
+        pos += 1;
+    }
+    state == State::LineComment
 }
 
 fn apply_position_restrictions(group: &mut [TaggedItemInfo]) {
